@@ -72,3 +72,35 @@ Proof. exact scaled_history_scale. Qed.
 Example C05_scaled_history_nonvacuous :
   length shear_L = 9%nat /\ is_eigmax (@sym9 NumR shear_L) 1.
 Proof. exact scaled_history_nonvacuous_proof. Qed.
+
+(* ---- round 5: the problem instance handed to the integrator (Model_minerals.lsoda_problem_of, tied to the
+   constructor call `LSODA(eval_rhs, t0, y0, t_bound, atol=.., rtol=.., first_step=.., lband, uband)` of
+   Mineral.update_orientations by Inst_minerals_drv.lsoda_args_inst_{1,2,3}; the translator fails closed when a
+   further keyword -- max_step, min_step -- is passed) ---------------------------------------------------- *)
+From PV Require Import Proofs_driver.
+
+(* the k-scaled history (velocity gradient k L on the time interval [t0/k, t1/k]): the problem instance the code
+   builds is the TIME RESCALING of the unscaled one -- t0, t_bound and first_step are divided by k; y0, atol and
+   rtol are unchanged -- and the vector field it integrates is k times the unscaled field *)
+Theorem C05_problem_instance_rescales :
+  forall (regime ph fb : Z) (n : nat) (ass : list Z) (frs Sd : list R) (p nn lam M : R)
+         (Fd : list R) (s0 : @snapshot NumR) (t0 t1 k : R) (L : list R) (sc : R) (y : list R),
+  0 < k -> length L = 9%nat ->
+  @lsoda_problem_of NumR Fd s0 (t0 / k) (t1 / k) = rescale_problem k (@lsoda_problem_of NumR Fd s0 t0 t1)
+  /\ @rhs NumR regime ph fb n ass frs (map (Rmult k) L) (k * sc) Sd p nn lam M y
+     = res_map (map (Rmult k)) (@rhs NumR regime ph fb n ass frs L sc Sd p nn lam M y).
+Proof. exact problem_instance_rescales. Qed.
+
+(* start vector and tolerances do not depend on the times at all; the first step is a fixed fraction
+   (the binary64 value of 0.1) of the time span *)
+Theorem C05_tolerances_time_free : forall (Fd : list R) (s : @snapshot NumR) (t0 t1 t0' t1' : R),
+  let P := @lsoda_problem_of NumR Fd s t0 t1 in let P' := @lsoda_problem_of NumR Fd s t0' t1' in
+  lp_y0 P = lp_y0 P' /\ lp_atol P = lp_atol P' /\ lp_rtol P = lp_rtol P'.
+Proof. exact problem_time_free. Qed.
+Theorem C05_first_step_relative_to_span : forall (Fd : list R) (s : @snapshot NumR) (t0 t1 : R),
+  let P := @lsoda_problem_of NumR Fd s t0 t1 in
+  lp_first P = Rabs (lp_tb P - lp_t0 P) * (3602879701896397 / 36028797018963968).
+Proof. exact problem_first_step. Qed.
+
+Example C05_problem_nonvacuous : 0 < 1 / 1000 /\ length id9 = 9%nat.
+Proof. exact problem_nonvacuous_proof. Qed.
